@@ -52,10 +52,27 @@ def make(name, d, ls, rs=None, params=None, var=1.0, **kw):
     if rs is not None:
         a["rescale"] = rs
     a.update(params or {})
+    bounds = a.pop("_bounds", None)             # enlarged argument bounds: set_arg_bounds first, then the value
+    late = {k_: a.pop(k_) for k_ in list(bounds or {}) if k_ in a}
     via_dim = kw.pop("via_dim", None)
+    ctor = kw.pop("ctor", None)
     a.update(kw)
+    if ctor == "temporal":                      # dim = spatial_dim + 1
+        a.pop("dim")
+        a.update(spatial_dim=d - 1, temporal=True)
+    elif ctor == "latlon_temporal":             # dim = 3 + 1
+        a.pop("dim")
+        a.update(latlon=True, temporal=True)
     with warnings.catch_warnings():
         warnings.simplefilter("ignore")
+        if bounds:
+            m = getattr(gs, name)(**a)
+            m.set_arg_bounds(**bounds)
+            for k_, v_ in late.items():
+                setattr(m, k_, v_)
+            if "var" in a:
+                m.var = a["var"]
+            return m
         if via_dim is None:
             return getattr(gs, name)(**a)
         a["dim"] = via_dim                      # built in another dimension, then moved with the dim setter
@@ -101,9 +118,15 @@ def model_params(name, params):
     return 0.0, 0.0
 
 
-def param_sets(name, d, rng, tier, for_probe=False):
-    """shape parameters over the bounds incl. the bounds and the branch points of the code"""
+def param_sets(name, d, rng, tier, for_probe=False, enlarged=False):
+    """shape parameters over the bounds incl. the bounds and the branch points of the code; enlarged=True adds values beyond
+    the default bounds (set_arg_bounds) just above the branch thresholds that lie ON a bound (Integral: nu > 50)"""
     n_rand = 1 if tier == "quick" else 3
+    if enlarged and name == "Integral":
+        big = dict(nu=[0.0, 1e6, "oo"])
+        # s = 1 + nu/2 kept away from integers: exp_int's isclose(s, round(s)) shortcut is a C03 matter
+        return param_sets(name, d, rng, tier, for_probe) + [dict(nu=v, _bounds=big) for v in
+                                                            ([50.001, 51.0, 107.3] if tier == "quick" else [50.001, 50.5, 51.0, 63.7, 107.3, 1000.3])]
     if name == "Matern":
         fixed = [0.2, 0.5, 1.0, 2.5, 20.0, 20.000001, 30.0]
         return [dict(nu=v) for v in fixed] + [dict(nu=lu(rng, 0.2, 30)) for _ in range(n_rand)]
@@ -174,9 +197,9 @@ class ReferenceUnavailable(Exception):
 def checked(cor):
     def f(r):
         v = np.asarray(cor(r), dtype=float)
-        if not np.all(np.isfinite(v)) or np.any(np.abs(v) > 1 + 1e-6):
+        if not np.all(np.isfinite(v)) or np.any(np.abs(v) > 1 + 1e-5):
             raise ReferenceUnavailable("correlation not finite / outside [-1,1] at %d of %d nodes" % (
-                int(np.sum(~np.isfinite(v) | (np.abs(v) > 1 + 1e-6))), v.size))
+                int(np.sum(~np.isfinite(v) | (np.abs(v) > 1 + 1e-5))), v.size))
         return v
     return f
 
@@ -188,9 +211,25 @@ def ft_forward(cor, d, k, rmax, kinks=()):
         g = lambda r: cor(r) * np.cos(k * r) / np.pi
     elif d == 2:
         g = lambda r: cor(r) * sps.j0(k * r) * r / (2 * np.pi)
-    else:
+    elif d == 3:
         g = lambda r: cor(r) * np.sinc(k * r / np.pi) * r * r / (2 * np.pi ** 2)
+    else:   # (2 pi)^-d/2 k^(1-d/2) int rho J_{d/2-1}(k r) r^{d/2} dr  =  (2 pi)^-d/2 int rho Lambda(k r) r^{d-1} dr
+        g = lambda r: cor(r) * bessel_lambda(d / 2.0 - 1.0, k * r) * r ** (d - 1) / (2 * np.pi) ** (d / 2.0)
     return panels_integrate(g, edges_for(rmax, k, kinks))
+
+
+def bessel_lambda(nu, x):
+    """J_nu(x) / x^nu, with its limit 1 / (2^nu Gamma(nu+1)) at x = 0"""
+    x = np.asarray(x, dtype=float)
+    out = np.full_like(x, 1.0 / (2.0 ** nu * sps.gamma(nu + 1.0)))
+    nz = x > 1e-6
+    out[nz] = sps.jv(nu, x[nz]) / x[nz] ** nu
+    return out
+
+
+def sphere_surface(d, r):
+    """surface of the (d-1)-sphere of radius r: 2 pi^(d/2) / Gamma(d/2) r^(d-1) (independent of the code's rad_fac)"""
+    return 2.0 * np.pi ** (d / 2.0) / sps.gamma(d / 2.0) * np.abs(r) ** (d - 1)
 
 
 def ft_forward_mp(cor, d, k, rmax):
@@ -247,8 +286,10 @@ def jbessel_inverse(m, d, r, n=400):
         ker = 2.0 * np.cos(k * r)
     elif d == 2:
         ker = 2 * np.pi * sps.j0(k * r) * k
-    else:
+    elif d == 3:
         ker = 4 * np.pi * np.sinc(k * r / np.pi) * k * k
+    else:
+        ker = (2 * np.pi) ** (d / 2.0) * bessel_lambda(d / 2.0 - 1.0, k * r) * k ** (d - 1)
     return float(0.5 ** (a + 1) * np.sum(w * smooth * ker) / l)
 
 
@@ -268,11 +309,17 @@ def int_pdf_log(m, name):
 
 # --------------------------------------------------------------------------- checks (each returns (ok, detail))
 
+_LAST_MODEL = {}
+
+
 def chk_corr(drv, case):
     """model vs implementation on one argument of one function"""
     name, d, ls, rs, params, fn, x = case["cls"], case["dim"], case["len_scale"], case["rescale"], case["params"], case["fn"], case["x"]
     var = case.get("var", 1.0)
-    m = make(name, d, ls, rs, params, var=var)
+    key = (name, d, ls, rs, json.dumps(params, sort_keys=True), var)
+    if _LAST_MODEL.get("key") != key:                    # consecutive cases share the model object (construction costs ~15 ms)
+        _LAST_MODEL.update(key=key, model=make(name, d, ls, rs, params, var=var))
+    m = _LAST_MODEL["model"]
     rs = float(m.rescale) if rs is None else rs          # None: the class default (sqrt(pi)/2 for Gaussian, 1 otherwise)
     p1, p2 = model_params(name, params)
     args = (("n", ANALYTIC[name]), p1, p2, ("z", d), float(ls), float(rs))
@@ -329,7 +376,7 @@ def corr_scale(m, name, d, params, fn, x, var):
     if not np.isfinite(sc):
         return None
     if fn in ("pdf", "lnpdf"):
-        sc *= {1: 2.0, 2: 2 * math.pi * abs(x), 3: 4 * math.pi * x * x}[d]
+        sc *= float(sphere_surface(d, x))
     if fn == "spectrum":
         sc *= var
     return sc
@@ -365,7 +412,7 @@ def chk_jb_inverse(case):
 
 def chk_int_pdf(case):
     name, d, ls, rs, params = case["cls"], case["dim"], case["len_scale"], case["rescale"], case["params"]
-    m = make(name, d, ls, rs, params)
+    m = make(name, d, ls, rs, params, **({"ctor": case["ctor"]} if case.get("ctor") else {}))
     if name == "JBessel":
         l = m.len_rescaled
         a = m.nu - d / 2.0
@@ -430,7 +477,8 @@ def chk_pdf_statement(case):
     """spectral_rad_pdf = rad_fac * |density| (unmasked), spectrum = var * density, on the implementation"""
     from gstools.covmodel.tools import rad_fac
     name, d, ls, rs, params, var = case["cls"], case["dim"], case["len_scale"], case["rescale"], case["params"], case["var"]
-    m = make(name, d, ls, rs, params, var=var)
+    m = make(name, d, ls, rs, params, var=var, **({"ctor": case["ctor"]} if case.get("ctor") else {}))
+    d = int(m.dim)                               # latlon + temporal forces 3 + 1
     l = m.len_rescaled
     r = np.array(case["rl"], dtype=float) / l
     bad = {}
@@ -438,25 +486,20 @@ def chk_pdf_statement(case):
         warnings.simplefilter("ignore")
         dens = m.spectral_density(np.abs(r))
         pdf = m.spectral_rad_pdf(r)
-        if d == 1:
-            fac = np.full_like(r, 2.0)
-        elif d == 2:
-            fac = 2 * np.pi * np.abs(r)
-        else:
-            fac = 4 * np.pi * r * r
+        fac = sphere_surface(d, r)
         exp = fac * np.abs(dens)
         exp = np.where(np.isfinite(exp), exp, 0.0)
         if d > 1:
             exp = np.where(np.abs(r) <= 1e-8, 0.0, exp)
         if not C.close(pdf, exp, rtol=1e-12):
-            bad["pdf"] = [float(x) for x in np.abs(pdf - exp)]
+            bad["pdf"] = dict(code=[float(x) for x in pdf], surface_times_density=[float(x) for x in exp])
         if np.any(pdf < 0) or np.any(~np.isfinite(pdf)):
             bad["pdf_range"] = True
         sp = m.spectrum(np.abs(r))
         if not C.close(sp, var * dens, rtol=1e-14):
             bad["spectrum"] = [float(x) for x in np.abs(sp - var * dens)]
-        if not C.close(rad_fac(d, np.abs(r)) * np.ones_like(r), fac, rtol=1e-15):
-            bad["rad_fac"] = True
+        if not C.close(rad_fac(d, np.abs(r)) * np.ones_like(r), fac, rtol=1e-14):
+            bad["rad_fac"] = dict(code=[float(x) for x in rad_fac(d, np.abs(r)) * np.ones_like(r)], sphere_surface=[float(x) for x in fac])
     return not bad, bad
 
 
@@ -472,7 +515,7 @@ def chk_tail_finite(case):
     return bool(ok), dict(density=s, density0=s0)
 
 
-HISTORIES = ["dim", "deepcopy+dim", "scales", "anis", "opt_arg", "hankel_kw", "hankel_kw+dim", "dim+back"]
+HISTORIES = ["dim", "deepcopy+dim", "scales", "anis", "opt_arg", "hankel_kw", "hankel_kw+dim", "dim+back", "interference", "deepcopy", "pickle"]
 
 
 def spectral_table(m, kgrid, ugrid):
@@ -539,6 +582,39 @@ def chk_history(case):
             m = cls(**dict(final, dim=d0, hankel_kw=None))
             m.hankel_kw = hk
             m.dim = d
+        elif hist == "interference":
+            # the spectral functions are functions of the object's own parameters: creating / tuning / evaluating OTHER models
+            # (same and other dims, custom hankel_kw, enlarged argument bounds, other classes) in between must not change them
+            m = cls(**final)
+            l0 = ls / rs
+            k0 = np.array(case["kl"], dtype=float) / l0
+            before = spectral_table(m, k0, np.array([0.0, 1e-6, 0.25, 0.5, 0.9, 0.999]))
+            others = []
+            for oname, okw in (("Stable", dict(alpha=1.3, hankel_kw=dict(N=50, h=0.01))), ("Cubic", dict(hankel_kw=dict(N=77))),
+                               (name, dict(params, hankel_kw=dict(a=-1, b=1, N=33, h=0.02)) if name not in () else {}),
+                               ("Integral", dict(nu=3.3)), ("Gaussian", dict(rescale=2.0))):
+                for od in (d, d0):
+                    o = getattr(gs, oname)(dim=od, len_scale=0.37 * ls, var=2.0, **okw)
+                    o.spectral_density(k0)
+                    o.spectral_rad_pdf(k0)
+                    others.append(o)
+            others[0].hankel_kw = dict(N=20)
+            others[3].dim = d
+            io = gs.Integral(dim=d)
+            io.set_arg_bounds(nu=[0.0, 1e3, "oo"])
+            io.nu = 77.7
+            io.spectral_density(k0)
+            copy.deepcopy(others[1]).spectral_density(k0)
+            after = spectral_table(m, k0, np.array([0.0, 1e-6, 0.25, 0.5, 0.9, 0.999]))
+            diff = [fn for fn in before if not C.bit_equal(before[fn], after[fn])]
+            if diff:
+                return False, dict(changed_by_other_objects=diff, before={fn: [float(x) for x in before[fn]][:6] for fn in diff},
+                                   after={fn: [float(x) for x in after[fn]][:6] for fn in diff})
+        elif hist == "deepcopy":
+            m = copy.deepcopy(cls(**final))
+        elif hist == "pickle":
+            import pickle
+            m = pickle.loads(pickle.dumps(cls(**final)))
         else:
             raise ValueError(hist)
         fresh = cls(**final)
@@ -612,11 +688,14 @@ def run_probe(ctx, case, hist=None):
 def correspondence(ctx, rng, drv):
     quick = ctx.tier == "quick"
     for name in ANALYTIC:
-        for d in (1, 2, 3):
-            psets = param_sets(name, d, rng, ctx.tier)
-            if quick:
-                psets = pick_sets(name, psets, rng, 6)
-            for params0, rs in [(p, r) for p in psets for r in rescales(rng)]:
+        for d in (1, 2, 3, 4, 5):
+            psets = param_sets(name, d, rng, ctx.tier, enlarged=True)
+            extra = [p for p in psets if "_bounds" in p]             # beyond the default bounds: always kept
+            psets = [p for p in psets if "_bounds" not in p]
+            if quick or d > 3:
+                psets = pick_sets(name, psets, rng, 6 if d <= 3 else 2)
+            psets = psets + (extra if d <= 3 else extra[:1])
+            for params0, rs in [(p, r) for p in psets for r in (rescales(rng) if d <= 3 else rescales(rng)[:1])]:
                 # every function below is compared for rescale < 1, > 1 and the class default: len_rescaled = len_scale / rescale
                 # enters each of them separately, so a slip in a single function shows
                 ls = lu(rng, 0.02, 80.0)
@@ -666,9 +745,14 @@ def correspondence(ctx, rng, drv):
             impl = float(np.asarray(rad_fac(d, np.array([r]))).ravel()[0]) if d > 1 else float(rad_fac(d, np.array([r])))
             mod = drv.call("rad_fac", ("z", d), float(r))
             ctx.count(("rad_fac", d, r), hist=dict(corr_fn="rad_fac", dim=d))
+            surf = float(sphere_surface(d, r))
+            prop_ok = C.close(impl, surf, rtol=1e-13)
+            if not prop_ok:
+                ctx.violation("probe: rad_fac", "rad_fac(%d, %r) = %r is not the surface 2 pi^(d/2)/Gamma(d/2) r^(d-1) = %r of the sphere" % (d, r, impl, surf),
+                              dict(case=dict(kind="rad_fac", dim=d, r=r), impl=impl, sphere_surface=surf), key="rad_fac:surface:d%d" % d)
             if not C.close(impl, mod, rtol=1e-12):
                 ctx.violation("correspondence: rad_fac", "rad_fac(%d, %r): implementation %r, model %r" % (d, r, impl, mod),
-                              dict(case=dict(kind="rad_fac", dim=d, r=r), impl=impl, model=mod), key="corr:rad_fac", no_input=(d > 3))
+                              dict(case=dict(kind="rad_fac", dim=d, r=r), impl=impl, model=mod), key="corr:rad_fac", no_input=prop_ok)
 
 
 def rs_kind(rs):
@@ -700,12 +784,15 @@ def probes(ctx, rng):
     # ---- Fourier pair: all 17 classes x dim 1-3
     for name in all_names:
         analytic = name in ANALYTIC
-        for d in (1, 2, 3):
-            psets = param_sets(name, d, rng, ctx.tier, for_probe=True)
-            if quick:
+        for d in ((1, 2, 3, 4, 5) if analytic else (1, 2, 3)):       # dim 4, 5: 3D + time, lat-lon + time
+            psets = param_sets(name, d, rng, ctx.tier, for_probe=True, enlarged=True)
+            extra = [p for p in psets if "_bounds" in p]
+            psets = [p for p in psets if "_bounds" not in p]
+            if quick or d > 3:
                 # rotating subset in the quick tier (all in thorough): 2 parameter sets per class and dim, 3 for the truncated power
                 # laws (always one with len_low = 0.4 len_scale and one with 2 len_scale)
                 psets = pick_sets(name, psets, rng, 3 if name in ("TPLGaussian", "TPLExponential") else 2)
+            psets = psets + (extra if d <= 3 else extra[:1])          # just above the branch thresholds beyond the default bounds
             for i, params0 in enumerate(psets):
                 ls = lu(rng, 0.05, 50.0)
                 rs = rescales(rng)[i % 3]            # < 1, > 1, class default in turn: never only the default
@@ -718,9 +805,16 @@ def probes(ctx, rng):
                     kls = [0.0, 1e-6, 0.3, 0.63, 1.0, 3.0, 8.0] + ([] if quick else [30.0, 100.0, lu(rng, 1e-3, 50), lu(rng, 1e-3, 50)])
                     if name == "TPLGaussian":
                         kls += [2 * math.sqrt(0.0999), 2 * math.sqrt(0.1001), 2 * math.sqrt(0.05)]   # the series / incomplete gamma branch point
+                    tol, path = T_ANALYTIC, "analytic"
+                    if name == "Integral" and params["nu"] > 50:
+                        # documented approximation of the nu > 50 branch ('approximation of the gaussian model'): measured error of the
+                        # unchanged code 2.0 .. 2.1 / nu^2 * S(0) (7.9e-4 at nu = 50, 2.1e-4 at 100, 2.1e-6 at 1000), all dims
+                        tol, path = 3.2 / params["nu"] ** 2, "analytic-enlarged-bounds"
+                    if d > 3:
+                        kls = [0.0, 0.3, 1.0, 3.0]
                     for kl in kls:
-                        ok, det = run_probe(ctx, dict(kind="ft", cls=name, dim=d, len_scale=ls, rescale=rs, params=params, kl=kl, tol=T_ANALYTIC),
-                                            hist=dict(path="analytic"))
+                        ok, det = run_probe(ctx, dict(kind="ft", cls=name, dim=d, len_scale=ls, rescale=rs, params=params, kl=kl, tol=tol),
+                                            hist=dict(path=path))
                         if "err" in det:
                             worst[name] = max(worst.get(name, 0.0), det["err"])
                 else:
@@ -746,7 +840,7 @@ def probes(ctx, rng):
         p3 = param_sets(name, 3, rng, "quick", for_probe=True)          # shape parameters valid in every dimension <= 3
         for hi, hist in enumerate(HISTORIES):
             for ti, (d0, d) in enumerate(transitions):
-                if hist not in ("dim", "deepcopy+dim", "hankel_kw+dim", "dim+back") and ti > 0:
+                if hist not in ("dim", "deepcopy+dim", "hankel_kw+dim", "dim+back", "interference") and ti > 0:
                     continue                                           # the other histories do not involve a second dimension
                 if hist == "anis" and d == 1:
                     d = 3
@@ -790,6 +884,22 @@ def probes(ctx, rng):
                 tol = 1e-6
                 run_probe(ctx, dict(kind="int_pdf", cls=name, dim=d, len_scale=ls, rescale=rescales(rng)[i % 3], params=params, tol=tol),
                           hist=dict(int_pdf_rescale=["<1", ">1", "default"][i % 3]))
+    # ---- dim 4 and 5 (general branch of rad_fac): normalisation and pdf = sphere surface * |density|, also through the documented ways
+    #      to get there (spatial_dim = 3 + temporal, latlon + temporal)
+    for name in ("Gaussian", "Exponential", "Matern", "Integral", "JBessel", "TPLGaussian", "TPLExponential"):
+        for d, ctor in ((4, None), (5, None), (4, "temporal"), (4, "latlon_temporal")):
+            if quick and ctor is None and name not in ("Gaussian", "Matern", "JBessel", "TPLGaussian"):
+                continue
+            psets = [p for p in param_sets(name, d, rng, "quick", for_probe=True)
+                     if not (name == "Integral" and p["nu"] < 0.3) and not (name.startswith("TPL") and p["hurst"] < 0.15)]
+            ls = lu(rng, 0.05, 50)
+            params = resolve(psets[int(rng.integers(len(psets)))], ls)
+            extra = {"ctor": ctor} if ctor else {}
+            run_probe(ctx, dict(kind="int_pdf", cls=name, dim=d, len_scale=ls, rescale=rescales(rng)[d % 3], params=params, tol=1e-6, **extra),
+                      hist=dict(highdim=str((d, ctor))))
+            run_probe(ctx, dict(kind="pdf_statement", cls=name, dim=d, len_scale=ls, rescale=rescales(rng)[(d + 1) % 3], params=params,
+                                var=lu(rng, 0.1, 10), rl=[0.0, 5e-9, 2e-8, 1e-3, 0.5, 1.0, 4.0, -1.0, 30.0], **extra),
+                      hist=dict(highdim=str((d, ctor))))
     # ---- cdf / ppf
     for name in ("Gaussian", "Exponential"):
         for d in (1, 2, 3):
